@@ -229,7 +229,11 @@ def worker(args):
     chunk, backends = args
     out = {"records": [], "calls": 0, "cases": 0}
     for c in chunk:
-        r, n = run_case(c, backends)
+        try:
+            r, n = run_case(c, backends)
+        except Exception as ex:
+            from . import common as _c
+            r, n = [_c.crash_record("conversion", ex, case=c)], 0
         out["records"] += r
         out["calls"] += n
         out["cases"] += 1
